@@ -454,6 +454,49 @@ pub fn run_case(case: &mut Case) {
                     }
                 }
             }
+            // the help and version switches a section lists are those of its own level
+            for (path, level, _) in visible_levels.iter().map(|l| (&l.0, l.1, l.2)) {
+                let title = path.join(" ");
+                let body = match secs.iter().find(|s| s.0 == title) {
+                    Some(s) => &s.1,
+                    None => continue,
+                };
+                let esc = |l: &str| l.replace('<', "&lt;").replace('>', "&gt;");
+                let own_help = level.help_names();
+                let own_version = level.version_names();
+                let mut problems = Vec::new();
+                if let Some(l) = own_help.longs.first() {
+                    if !body.contains(&format!("--{}", esc(l))) {
+                        problems.push(format!("help switch --{} is not listed", l));
+                    }
+                }
+                match (&level.version, own_version.longs.first()) {
+                    (Some(_), Some(l)) => {
+                        if !body.contains(&format!("--{}", esc(l))) {
+                            problems.push(format!("version switch --{} is not listed", l));
+                        }
+                    }
+                    (None, _) => {
+                        // the default name is only taken when nothing of the level is called so
+                        let mut items = Vec::new();
+                        level.root.level_items(&mut items);
+                        let clash = items.iter().any(|i| i.names.longs.iter().any(|l| l == "version"));
+                        if !clash && body.contains("--version") {
+                            problems.push("a version switch is listed, none is configured".into());
+                        }
+                    }
+                    _ => {}
+                }
+                case.rep.count("help-version-switches-checked");
+                for pr in problems {
+                    case.rep.violation(
+                        &format!("{}:help-or-version-switch-of-another-level", fmt),
+                        "complete",
+                        case.index,
+                        detail(format!("section {:?}: {}", title, pr)),
+                    );
+                }
+            }
             if secs.len() < visible_levels.len() {
                 case.rep.count("fewer-sections-than-levels");
             }
@@ -495,6 +538,36 @@ pub fn run_case(case: &mut Case) {
                             "complete",
                             case.index,
                             detail(format!("help marker of item {} is missing", it.id)),
+                        );
+                    }
+                }
+            }
+        }
+        if fmt == "manpage" {
+            // ... and so are the help and version switches of every visible level, under the
+            // names that level gave them
+            for (path, level, _) in visible_levels.iter().map(|l| (&l.0, l.1, l.2)) {
+                let mut wanted = Vec::new();
+                if let Some(l) = level.help_names().longs.first() {
+                    wanted.push(format!("--{}", l));
+                }
+                if level.version.is_some() {
+                    if let Some(l) = level.version_names().longs.first() {
+                        wanted.push(format!("--{}", l));
+                    }
+                }
+                for w in wanted {
+                    case.rep.count("help-version-switches-checked");
+                    if !doc.contains(&roff_escaped(&w)) && !doc.contains(&w) {
+                        case.rep.violation(
+                            "manpage:help-or-version-switch-of-another-level",
+                            "complete",
+                            case.index,
+                            detail(format!(
+                                "level {:?}: its switch {} is not mentioned anywhere",
+                                path.join(" "),
+                                w
+                            )),
                         );
                     }
                 }
